@@ -10,6 +10,11 @@ Row/RowParse.v, Cell/Cell.v, Io/XlsxCell.v mirror these two only).
                       RowDataSheet.export(filename, "xlsx") + XLSXSheetReader: a cell text of two or more characters
                       that starts with "=" comes back as written (the export forces text cells) / comes back empty
                       (openpyxl stores it as a formula, which has no value when the file is read back)
+  join_keeps_blank_last
+                      CellParser.join_from_lists: a list (of two or more parts) whose last part is the empty text gets
+                      a trailing separator, so that the reader - which drops one empty element after a final
+                      separator - gives the empty last element back (`a;;` for ["a", ""]) / it does not (`a;`, read
+                      back as ["a"])
 """
 from gen_tables import Refuse, coq_bool
 
@@ -155,6 +160,51 @@ def _probe_xlsx(notes):
     return verdict
 
 
+# --------------------------------------------------------------------------------------------------------
+def _probe_join(notes):
+    from rpft.parsers.common.cellparser import CellParser
+
+    cp = CellParser()
+
+    def j(v):
+        try:
+            return cp.join_from_lists(v)
+        except Exception as e:
+            raise Refuse(f"join probe: join_from_lists({v!r}) raises {type(e).__name__}: {e}")
+
+    common = [("a", "a"), ([], ""), (["a"], "a|"), ([""], "|"), (["a", "b"], "a|b"), (["", "b"], "|b"), (["a", "", "b"], "a||b"),
+              ([["a", "b"], ["c"]], "a;b|c;"), ([["a"]], "a;|"), ([[""]], ";|"), ([["", "b"], "c"], ";b|c"),
+              (["a|b", "c;d\\"], "a\\|b|c\\;d\\\\")]
+    for v, want in common:
+        if j(v) != want:
+            raise Refuse(f"join probe: join_from_lists({v!r}) = {j(v)!r}, expected {want!r} on either tree")
+    cases = [(["a", ""], "a||", "a|"), (["", ""], "||", "|"), (["a", "", ""], "a|||", "a||"), ([["k", ""]], "k;;|", "k;|"),
+             ([["k", ""], ["j", "v"]], "k;;|j;v", "k;|j;v"), ([["a"], []], "a;||", "a;|"), ([["a", "b"], ""], "a;b||", "a;b|"),
+             ([["", ""]], ";;|", ";|")]
+    verdicts = set()
+    for v, kept, dropped in cases:
+        got = j(v)
+        if got == kept:
+            verdicts.add(True)
+        elif got == dropped:
+            verdicts.add(False)
+        else:
+            raise Refuse(f"join probe: join_from_lists({v!r}) = {got!r}: neither {kept!r} nor {dropped!r}")
+    if len(verdicts) != 1:
+        raise Refuse("join probe: a trailing separator after an empty last part in some lists and not in others")
+    keeps = verdicts.pop()
+    # the reader's side of the argument: one empty element after a final separator is dropped
+    reads = [("a|", ["a"]), ("a||", ["a", ""]), ("k;;|", [["k", ""]]), ("k;|", [["k"]]), ("|", [""]), ("||", ["", ""])]
+    for txt, want in reads:
+        got = cp.split_into_lists(txt)
+        if got != want:
+            raise Refuse(f"join probe: split_into_lists({txt!r}) = {got!r}, expected {want!r}")
+    notes.append(f"join_keeps_blank_last={keeps}: PROBED on CellParser.join_from_lists ({len(common)} values joined alike on either "
+                 f"tree, {len(cases)} values whose last part is empty: trailing separator on all: True; on none: False; "
+                 "anything else refused) and on split_into_lists (6 texts)")
+    return keeps
+
+
 def tables_rowfix(out, notes):
     out.append("")
     out.append("(* ---- row codec repairs (translator/tables_rowfix.py) ---- *)")
@@ -172,6 +222,13 @@ def tables_rowfix(out, notes):
     except Exception as e:
         raise Refuse(f"xlsx probe failed: {type(e).__name__}: {e}")
     out.append(f"Definition xlsx_export_text_cells : bool := {coq_bool(text_cells)}.")
+    try:
+        jk = _probe_join(notes)
+    except Refuse:
+        raise
+    except Exception as e:
+        raise Refuse(f"join probe failed: {type(e).__name__}: {e}")
+    out.append(f"Definition join_keeps_blank_last : bool := {coq_bool(jk)}.")
 
 
 GENERATORS = [tables_rowfix]
